@@ -109,22 +109,7 @@ def run(ctx):
     # four-character names, two-letter symbols in columns 13-14, deuterium): a
     # hydrogen that is not recognised as one is neither dropped nor rebuilt, it
     # stays as a heavy atom
-    import string as _string
-    from sa.consteval import ConstEval, UNKNOWN
-    shapes = {' H  ': 'H', ' HA ': 'H', ' HB2': 'H', 'HH11': 'H', 'HG21': 'H', "HO5'": 'H',
-              '1H  ': 'H', '1HB ': 'H', '1HH1': 'H', '2HD2': 'H', '3HG1': 'H', ' D  ': 'H', '1DD2': 'H',
-              ' N  ': 'N', ' CA ': 'C', ' OXT': 'O', ' SG ': 'S', ' OD1': 'O', 'CA  ': 'Ca', 'FE  ': 'Fe',
-              'ZN  ': 'Zn', 'CL  ': 'Cl', 'NA  ': 'Na', ' C1 ': 'C', " O5'": 'O'}
-    wrong = {}
-    for cols, want in sorted(shapes.items()):
-        rec = 'ATOM      1 %s ALA A   1      11.111  22.222  33.333  1.00 20.00' % cols
-        ce = ConstEval({line_p: rec, 'string.digits': _string.digits})
-        got = ce.run(sp.body).get('self.element', UNKNOWN)
-        if got != want:
-            wrong[cols] = got if got is not UNKNOWN else '?'
-    ctx.ob('C07.R1', 'element:name-shapes', not wrong,
-           'the element rule gives the expected symbol for %d shapes of the atom-name columns '
-           '(wrong: %s)' % (len(shapes), wrong), amod, el_defs[0] if el_defs else sp)
+    common.check_element_name_shapes(ctx, 'C07.R1', prog)
 
     # ------------------------------------------------------------------ R2
     common.check_inert_fields(ctx, 'C07.R2', prog, ['numb', 'occ', 'beta'])
